@@ -8,6 +8,9 @@ git merge "$1" -m "merge $1" > /tmp/merge_out.txt 2>&1; tail -2 /tmp/merge_out.t
 for f in lean/PanqecVerif.lean lean/Driver/Main.lean; do
   if git diff --name-only --diff-filter=U | grep -q "^$f$"; then git checkout --ours "$f"; git add "$f"; fi
 done
+for f in $(git diff --name-only --diff-filter=U | grep -E "^(evidence/.*\.json|MANIFEST\.json|DESIGN\.md|fingerprints\.json)$"); do
+  git checkout --ours "$f"; git add "$f"
+done
 if git diff --name-only --diff-filter=U | grep -q "^known_findings.json$"; then
   git checkout --ours known_findings.json; git add known_findings.json
 fi
@@ -24,4 +27,6 @@ json.dump(ours,open('/verif/known_findings.json','w'),indent=1)
 PY
 if git diff --name-only --diff-filter=U | grep -q .; then echo "REMAINING CONFLICTS:"; git diff --name-only --diff-filter=U; exit 1; fi
 python3 gen_root.py
+python3 gen_manifest.py >/dev/null
+[ -f design_notes/assemble.py ] && python3 design_notes/assemble.py >/dev/null
 git add -A && git commit -qm "merge $1 (glue regenerated)" && echo merged
